@@ -1051,6 +1051,74 @@ pub fn diff_schema(reference: &Schema, other: &Schema, file: Option<&str>) -> Ve
     out
 }
 
+/// The published schema as text, one line per field / enum value (sorted), the form in which it is
+/// frozen in `harness/src/schema_lock.tsv`:
+/// `F <message> <field name> <number> <type> <label>` and `E <enum> <value name> <number>` (tab separated).
+pub fn lock_text(s: &Schema) -> String {
+    let mut lines = vec![];
+    for (name, m) in &s.messages {
+        for f in &m.fields {
+            lines.push(format!("F\t{name}\t{}\t{}\t{:?}\t{:?}", f.name, f.number, f.ty, f.label));
+        }
+        if m.fields.is_empty() {
+            lines.push(format!("M\t{name}"));
+        }
+    }
+    for (name, e) in &s.enums {
+        for (v, n) in &e.values {
+            lines.push(format!("E\t{name}\t{v}\t{n}"));
+        }
+    }
+    lines.sort();
+    lines.join("\n") + "\n"
+}
+
+/// Everything the frozen text publishes that `s` no longer has in the same form (a field renumbered,
+/// retyped, relabelled, renamed or removed; an enum value renumbered or removed; a number re-used by
+/// another field), as (key, text); plus the number of entries of `s` that the frozen text does not
+/// know (additions, compatible by the unknown-field rule).
+pub fn diff_lock(lock: &str, s: &Schema) -> (Vec<(String, String)>, u64, u64) {
+    let now: BTreeSet<String> = lock_text(s).lines().map(|l| l.to_string()).collect();
+    let mut out = vec![];
+    let mut checked = 0;
+    let short = |full: &str| full.rsplit_once("ommx.v1.").map(|x| x.1.to_string()).unwrap_or_else(|| full.to_string());
+    let mut locked = BTreeSet::new();
+    for line in lock.lines().filter(|l| !l.is_empty() && !l.starts_with('#')) {
+        locked.insert(line.to_string());
+        checked += 1;
+        if now.contains(line) {
+            continue;
+        }
+        let p: Vec<&str> = line.split('\t').collect();
+        match p[0] {
+            "F" => {
+                let cur = s.messages.get(p[1]);
+                let by_name = cur.and_then(|m| m.fields.iter().find(|f| f.name == p[2]));
+                let by_number = cur.and_then(|m| m.fields.iter().find(|f| f.number.to_string() == p[3]));
+                let what = match (cur, by_name, by_number) {
+                    (None, _, _) => "message removed".to_string(),
+                    (_, Some(f), _) => format!("now number {} type {:?} label {:?}", f.number, f.ty, f.label),
+                    (_, None, Some(g)) => format!("field removed or renamed; its number now belongs to {:?} ({:?}, {:?})", g.name, g.ty, g.label),
+                    _ => "field removed".to_string(),
+                };
+                out.push((format!("{}.{}", short(p[1]), p[2]), format!("published as number {} type {} label {}; {what}", p[3], p[4], p[5])));
+            }
+            "M" => {
+                if !s.messages.contains_key(p[1]) {
+                    out.push((short(p[1]), "published message removed".to_string()));
+                }
+            }
+            "E" => {
+                let cur = s.enums.get(p[1]).and_then(|e| e.values.iter().find(|v| v.0 == p[2]));
+                out.push((format!("{}.{}", short(p[1]), p[2]), format!("published as {}; now {}", p[3], cur.map_or("removed".to_string(), |v| v.1.to_string()))));
+            }
+            other => out.push((format!("lock-line:{other}"), format!("unreadable lock line {line:?}"))),
+        }
+    }
+    let additions = now.iter().filter(|l| !locked.contains(*l)).count() as u64;
+    (out, checked, additions)
+}
+
 /// number of (fields, enum values) of the definitions of `file` (all files when None)
 pub fn schema_size(s: &Schema, file: Option<&str>) -> (u64, u64) {
     let in_file = |f: &str| file.map_or(true, |x| x == f);
